@@ -184,6 +184,31 @@ pub fn run(ctx: &mut Ctx) {
             }
         }
     }
+    if wants(2) || wants(3) {
+        // enumerated polling-point callbacks / chains whose own arrivals come in bursts of one, two or three (release
+        // jitter of 0, T, 2T) next to a dense interferer, under three supplies: the interference window
+        // prefix + response - least_wcet + 1 then has to be right for the *last* instance of a burst
+        for sup in [json!({"k": "dedicated"}), json!({"k": "periodic", "Q": 4, "P": 5}), json!({"k": "constrained", "Q": 2, "D": 3, "P": 4})] {
+            for j_own in [0u64, 30, 60] {
+                for c_own in [2u64, 3] {
+                    for (t_o, c_o) in [(6u64, 2u64), (9, 4)] {
+                        let own = json!({"k": "rbf", "a": {"k": "sporadic", "T": 30, "J": j_own}, "c": {"k": "scalar", "c": c_own}});
+                        let others = json!({"k": "rbf", "a": {"k": "periodic", "T": t_o}, "c": {"k": "scalar", "c": c_o}});
+                        let pre = json!({"k": "rbf", "a": {"k": "sporadic", "T": 30, "J": j_own}, "c": {"k": "scalar", "c": 2}});
+                        let full = json!({"k": "rbf", "a": {"k": "sporadic", "T": 30, "J": j_own}, "c": {"k": "scalar", "c": c_own + 2}});
+                        if let (Some(o1), Some(o2), Some(p1), Some(f1)) = (demand_rec(&own, 304, wd), demand_rec(&others, 304, wd), demand_rec(&pre, 304, wd), demand_rec(&full, 304, wd)) {
+                            if wants(2) {
+                                ctx.call("ros2_pp", tagged(json!({"op": "ros2_pp", "supply": sup, "lim": 150, "own": o1, "others": o2})), call_ros2);
+                            }
+                            if wants(3) {
+                                ctx.call("ros2_chain", tagged(json!({"op": "ros2_chain", "supply": sup, "lim": 150, "last": o1, "prefix": p1, "full": f1, "others": o2})), call_ros2);
+                            }
+                        }
+                    }
+                }
+            }
+        }
+    }
     if wants(4) || wants(5) {
         // enumerated rr / bw workloads with two polled callbacks of known priority -- equal, lower, higher -- where the
         // interferer is dense (short period) and the analysed callback long, so that the polling-point cap on the
